@@ -87,10 +87,15 @@ class History:
         op = s[0]
         if op == 'cell':
             self.counter += 1
-            Node(c, f'c{self.counter}', KINDS[s[1] % len(KINDS)])
+            # cells and forks live in separate name spaces: reuse the name of an existing fork now and then (bench style)
+            free = [n for n in c.forks if n not in c.cells]
+            name = free[s[1] % len(free)] if free and s[1] % 3 == 0 else f'n{self.counter}'
+            Node(c, name, KINDS[s[1] % len(KINDS)])
         elif op == 'fork':
             self.counter += 1
-            Node(c, f'f{self.counter}')
+            free = [n for n in c.cells if n not in c.forks]
+            name = free[(s[1] if len(s) > 1 else 0) % len(free)] if free and (len(s) == 1 or s[1] % 2 == 0) else f'n{self.counter}'
+            Node(c, name)
         elif op == 'line' and len(c.nodes) >= 2:
             d, r = c.nodes[s[1] % len(c.nodes)], c.nodes[s[2] % len(c.nodes)]
             if d is r or (r.kind == '__fork__' and any(l is not None for l in r.ins)):
@@ -413,6 +418,9 @@ def synthetic_impls():
         'EMPTY': 'input(A)',
         'CONST': 'output(X) X=__const1__()',
         'CHAIN': 'input(A) output(X) T=INV1(A) U=INV1(T) X=BUF1(U)',
+        'IGNOREDMID': 'input(S,A,TE,B) output(Y) Y=MUX21(A,B,S)',
+        'IGNOREDFIRST': 'input(X0,A,B) output(Y) Y=NAND2(A,B)',
+        'TWOIGNORED': 'input(A,E1,B,E2) output(Y,Z) Y=XOR2(A,B) Z=INV1(B)',
     }
     out = {}
     for k, s in srcs.items():
